@@ -144,6 +144,12 @@ def run(chk, replay=None):
     ctx.update(dctx)
     recs = recs + drecs
     chk.part("optional_arguments_omitted", records=len(drecs), classes=sorted({v["cls"] for v in dctx.values()}), skipped=dskipped)
+    from ..expr_carrier import falsy_attribute_records
+
+    frecs, fctx, fskipped = falsy_attribute_records(embs, start_id=nid + len(child_recs) + len(drecs) + 10, ops=("pickle",))
+    ctx.update(fctx)
+    recs = recs + frecs
+    chk.part("falsy_attribute_values", records=len(frecs), classes=sorted({v["cls"] for v in fctx.values()}), skipped=fskipped)
     good = [r for r in recs if r["op"] == "pickle"] + child_recs
     tv = trace.validate("Trace_Expr", good, cfg=TRACE_CFG, timeout=2400)
     chk.add_tlc("trace_pickle_records", tv.res, traces=len(good))
